@@ -34,7 +34,14 @@ def highest_common_root_folder(paths: Sequence[Path]) -> Path:
     folders: list[Path] = []
     for path in paths:
         _path: Path = path.resolve()
-        _folder: Path = _path.parent if _path.suffix else _path
+        _folder: Path
+        if _path.is_dir():
+            _folder = _path  # an existing folder, whatever its name looks like (e.g. 'v1.2')
+        elif _path.is_file():
+            _folder = _path.parent  # an existing file, also one without file ending
+        else:
+            # not on disk: guess from the name
+            _folder = _path.parent if _path.suffix else _path
         folders.append(_folder.absolute())
 
     if len(folders) == 1:
